@@ -99,6 +99,66 @@ def search_c05():
     return None
 
 
+def search_c05_random():
+    from rsatoolbox.inference import crossvalsets as cv
+    for n_r, n_p in itertools.product(range(2, 6), range(3, 8)):
+        for t_r, t_p in itertools.product(range(1, n_r), range(1, n_p)):
+            rd = _stack(n_r, n_p)
+            rd.rdm_descriptors['index'] = np.arange(n_r) + 10
+            rd.pattern_descriptors['index'] = np.arange(n_p) + 20
+            inp = dict(function='sets_random', n_rdm_groups=n_r, n_pattern_groups=n_p, n_rdm=t_r, n_pattern=t_p, n_cv=2)
+            np.random.seed(t_r * 7 + t_p)
+            try:
+                tr, te, ce = cv.sets_random(rd, n_rdm=t_r, n_pattern=t_p, n_cv=2)
+            except Exception as e:
+                return _fail('sets_random', inp, f'raised {type(e).__name__}: {e}', 'folds', 'the fold generator raised')
+            for a, b in zip(te, tr):
+                ter, trr = set(map(int, a[0].rdm_descriptors['index'])), set(map(int, b[0].rdm_descriptors['index']))
+                tep, trp = set(map(int, a[1])), set(map(int, b[1]))
+                obs = dict(test_rdms=sorted(ter), train_rdms=sorted(trr), test_patterns=sorted(tep), train_patterns=sorted(trp))
+                if ter & trr or tep & trp:
+                    return _fail('sets_random', inp, obs, 'disjoint test and training groups',
+                                 'test and training groups of a random split overlap')
+                if len(ter) != t_r or len(tep) != t_p:
+                    return _fail('sets_random', inp, obs, f'{t_r} test RDM groups and {t_p} test conditions',
+                                 'the test side of a random split does not have the requested size')
+                if ter | trr != set(range(10, 10 + n_r)) or tep | trp != set(range(20, 20 + n_p)):
+                    return _fail('sets_random', inp, obs, 'test + training = all groups',
+                                 'groups are missing from both sides of a random split')
+    return None
+
+
+def search_c09():
+    import rsatoolbox
+    from rsatoolbox.inference import bootstrap as bs
+    nvec = 6
+    groups = np.array([3, 3, 3, 3, 7, 9, 9])          # unequal group sizes
+    rd = rsatoolbox.rdm.RDMs(np.arange(len(groups) * nvec, dtype=float).reshape(len(groups), nvec) + 1,
+                             rdm_descriptors={'g': groups}, pattern_descriptors={'p': np.array([1, 1, 2, 5])})
+    for fn, kw, pick, want in ((bs.bootstrap_sample_rdm, dict(rdm_descriptor='g'), lambda o: o[1], [3, 7, 9]),
+                               (bs.bootstrap_sample_pattern, dict(pattern_descriptor='p'), lambda o: o[1], [1, 2, 5]),
+                               (bs.bootstrap_sample, dict(rdm_descriptor='g', pattern_descriptor='p'), lambda o: o[1], [3, 7, 9]),
+                               (bs.bootstrap_sample, dict(rdm_descriptor='g', pattern_descriptor='p'), lambda o: o[2], [1, 2, 5])):
+        counts = {w: 0 for w in want}
+        np.random.seed(12345)
+        n_rep = 3000
+        for rep in range(n_rep):
+            idx = list(map(int, pick(fn(rd, **kw))))
+            inp = dict(function=fn.__name__, kwargs=kw, numpy_seed=12345, repetition=rep, groups=want)
+            if len(idx) != len(want):
+                return _fail(fn.__name__, inp, idx, f'{len(want)} drawn groups', 'the number of drawn groups is not the number of distinct groups')
+            if any(i not in counts for i in idx):
+                return _fail(fn.__name__, inp, idx, f'values among {want}', 'a drawn index is not a descriptor group')
+            for i in idx:
+                counts[i] += 1
+        exp = n_rep * len(want) / len(want)
+        chi2 = sum((c - exp) ** 2 / exp for c in counts.values())
+        if chi2 > 30:      # 2 degrees of freedom: p < 1e-6
+            return _fail(fn.__name__, dict(function=fn.__name__, kwargs=kw, numpy_seed=12345, repetitions=n_rep), counts,
+                         f'about {exp:.0f} selections per group', 'groups are not selected equally often on average')
+    return None
+
+
 def search_c10():
     from rsatoolbox.util.rdm_utils import _get_n_from_length, _get_n_from_reduced_vectors
     for n in list(range(1, 3001)) + [2 ** e + d for e in range(12, 26) for d in (-1, 0, 1)]:
@@ -116,4 +176,7 @@ def search_c10():
 
 def search(pid):
     f = globals().get('search_' + pid.lower())
-    return f() if f else None
+    r = f() if f else None
+    if r is None and pid == 'C05':
+        r = search_c05_random()
+    return r
